@@ -502,6 +502,35 @@ CHECKS['C06']['level_text'] += ' One *_procs job runs with -l 2 while the load a
 CHECKS['C06']['assumptions'] = [a for a in CHECKS['C06']['assumptions'] if 'load-average' not in a]
 CHECKS['C06']['jobs'] += _mode_jobs('MODE_SCHED', [41], extra=['WITH_FAILURES'], suffix='_fail', reach=('built',), bounds='the same shape with any subset of commands failing, -k in {1,2}: a statement that failed before the dyndep file naming its output is loaded')
 
+# ---- fourth session
+CHECKS['C20']['jobs'] += _mode_jobs('MODE_STATUS', [9], extra=['WITH_FAILURES', 'CUSTOM_FORMAT'], suffix='_custom_format', reach=('success', 'failure', 'ninja-status-format', 'status-option-format'), bounds='progress prefix given by $NINJA_STATUS (%s %f %t %r %u %p %%) or by --status ($started $finished $total $running $remaining $progress $description); -j in {1,2,3}, each command prints or not, any subset fails, -k in {1,2}, every completion order')
+CHECKS['C20']['jobs'] += _mode_jobs('MODE_STATUS', [5], extra=['SMART_TERMINAL', 'CUSTOM_FORMAT'], suffix='_smart_custom_format', reach=('success', 'smart-terminal', 'ninja-status-format', 'status-option-format'), bounds='the same two custom formats on a terminal (status printed at command start and at command end)')
+CHECKS['C20']['jobs'] += _via_main(_mode_jobs('MODE_STATUS', [0], extra=['CUSTOM_FORMAT', 'WITH_FAILURES'], suffix='_custom_format', reach=('success', 'failure', 'ninja-status-format', 'status-option-format'), bounds='the two custom formats through the environment / the --status command-line option'))
+CHECKS['C20']['jobs'] += _mode_jobs('MODE_STATUS', [9], extra=['WITH_FAILURES', 'OUTPUT_BYTES'], suffix='_bytes', reach=('success', 'failure', 'output-shown'), bounds='what commands print is plain text, text with ANSI colour sequences (removed when stdout is not a terminal) or NUL / control / high bytes (shown unchanged); -j in {1,2,3}, any subset fails, -k in {1,2}, every completion order')
+CHECKS['C20']['jobs'] += _mode_jobs('MODE_STATUS', [9], extra=['SMART_TERMINAL', 'OUTPUT_BYTES'], suffix='_smart_bytes', reach=('success', 'output-shown', 'smart-terminal'), bounds='the same output flavours on a terminal (colour sequences kept)')
+CHECKS['C20']['jobs'] += _real_runner(_mode_jobs('MODE_STATUS', [5], extra=['OUTPUT_BYTES'], suffix='_bytes', reach=('success', 'output-shown'), bounds='the same output flavours read from the command\'s pipe by Subprocess::OnPipeReady in one or two reads'))
+CHECKS['C20']['level_text'] += ' Further jobs give the progress prefix through $NINJA_STATUS or --status with every counter spelled out and check each status line for consistency (finished <= started <= total, remaining == total - started, running, percentage), and let commands print ANSI colour sequences (stripped for a non-terminal, kept on a terminal) or NUL, control and high bytes (shown unchanged, exactly once).'
+CHECKS['C20']['level_note'] = CHECKS['C20']['level_note'].replace('Custom status formats are outside this check', 'Rate and time placeholders (%o %c %e %w %E %W %P) of custom status formats are outside this check')
+
+CHECKS['C09']['jobs'].append(dict(name='duplicate_dep', harness='c09_depslog.cc', units=_C09_UNITS, defines=['DAMAGE_TEAR', 'CONCRETE_SEQ', 'SEQ_BASE=4', 'VERIF_SEQS=1', 'VERIF_MAXREC=4'], reach=['tear-none', 'tear-some', 'recompact-2', 'recompact-3', 'done'],
+    bounds='1 sequence x 1..4 records whose dependency lists name the same, so far unknown, file twice (two spellings of one path); torn at every byte offset, 4 choices of appended record, recompaction never / in session 2 / in session 3'))
+CHECKS['C09']['level_text'] += ' One sequence records dependency lists that name one not yet known file twice (a depfile spelling a path in two ways): later sessions must load the log cleanly and return the list as recorded.'
+
+CHECKS['C14']['jobs'].append(dict(name='nested', harness='c14_nested.cc', units=['util'] + ['string_piece_util', 'edit_distance'], stubs=False, reach=['backed-out-past-start', 'backed-out-to-start', 'partly-backed-out', 'nine-levels'], limits=dict(time=1200, max_paths=400000),
+    quick=dict(defines=['VERIF_D=16'], bounds='0..16 real components with distinct names (the first may start with a dot), then 0..D+2 ".." components, one "." or empty component at one of four places, optional tail name, relative or absolute'),
+    thorough=dict(defines=['VERIF_D=40'], bounds='the same with up to 40 nested components', limits=dict(time=3000, max_paths=3000000))))
+CHECKS['C14']['level_text'] += ' A fourth job nests up to 16 (thorough: 40) distinctly named components and backs out of them with up to that many ".." components (plus two more), against the same reference.'
+
+SCENARIOS += ['restat_and_plain_inputs', 'pool_depth2_wide', 'dyndep_clean_root']     # 45 .. 47
+CHECKS['C01']['jobs'] += _hist_jobs('CHECK_C01', 2, 3, [45])
+CHECKS['C03']['jobs'] += _hist_jobs('CHECK_C03', 2, 3, [45], reach=('built', 'minimality-checked'))
+CHECKS['C01']['level_text'] += ' One shape gives a consumer two generated inputs, one from a plain and one from a restat statement, so that the restat pruning walk runs while a really rewritten input sits next to the untouched one (both completion orders).'
+CHECKS['C06']['jobs'] += _mode_jobs('MODE_SCHED', [46], extra=['WITH_JOBSERVER'], suffix='_tokens', reach=('tokens-success', 'tokens-failure', 'parallel'), bounds='three statements of a depth-2 pool ready at once; -j in {1,2,3} with a jobserver pool of 0..2 explicit tokens plus the implicit one (the token count, not -j, limits the jobs), any command start may fail')
+CHECKS['C06']['jobs'] += _mode_jobs('MODE_SCHED', [46], reach=('built', 'parallel'), bounds='three statements of a depth-2 pool ready at once; -j in {1,2,3}, every completion order')
+CHECKS['C06']['level_text'] += ' One shape has more ready statements in a depth-2 pool than the pool admits, with -j below, at and above the depth and with a jobserver whose token count exceeds -j.'
+CHECKS['C11']['jobs'] += _hist_jobs('CHECK_C11', 2, 3, [47], reach=('built', 'incremental-build'))
+CHECKS['C11']['level_text'] += ' One shape lets the statement bound to a rebuilt dyndep file stay up to date while the producer of its discovered input is clean but waits for a dirty order-only input: that input must still be brought up to date, as with the information inlined.'
+
 # ---- the thorough tier as it is actually run: every job of the quick tier at the same bounds, plus the thorough_only jobs (heavier shapes, built-then-perturbed
 # states, all-subsets edits), plus deeper bounds for the byte-level kernels (C08 C09 C13 C14 C15 C16 C19/json).  Three-invocation histories of *every* pipeline shape
 # (the first version's thorough tier) take many hours on 16 cores and were never run to completion, so they are not what `--tier thorough` means any more; the
